@@ -13,7 +13,6 @@ package main
 // the raw engine content.  spec/ZCkptTrace.tla decides; the driver never judges.
 
 import (
-	"bufio"
 	"crypto/sha1"
 	"encoding/hex"
 	"flag"
@@ -24,10 +23,10 @@ import (
 	"math/rand"
 	"os"
 	"path/filepath"
-	"regexp"
 	"sort"
 	"strconv"
 	"strings"
+	"time"
 
 	"github.com/youzan/ZanRedisDB/common"
 	"github.com/youzan/ZanRedisDB/engine"
@@ -52,45 +51,37 @@ var ckHllKeys = []string{"t:h1", "u:h2"}
 
 type ckName struct{ t, i uint64 }
 
-type ckOrigin struct {
-	s     int
-	epoch int
-}
-
 type ckStore struct {
 	id      int
 	dir     string
 	kv      *node.KVStore
-	term    uint64
-	log     []int // ids applied = content
-	epoch   int
+	applied int // index of the last log entry applied = the store's data
 	bi      *rockredis.BackupInfo
 	biName  ckName
 	waited  bool
-	mterm   int // model-level term / index (TLC-generated behaviours)
-	midx    int
+	midx    int // model-level applied index (TLC-generated behaviours)
 	lastRes *ckName
+	fetched int  // checkpoints fetched into this store's backup directory so far
+	rewound bool // the store has restored a checkpoint (its engine's file numbers start again from there)
 }
 
 type ckDrv struct {
-	eng     string
-	base    string
-	seed    int64
-	keep    int
-	tw      *trace.Writer
-	rng     *rand.Rand
-	stores  map[int]*ckStore
-	gterm   uint64
-	mgterm  int
-	nextID  int
-	nseg    int
-	origin  map[ckName]ckOrigin
-	epochs  map[ckOrigin][]int // content sequence of (store, epoch) as far as it has grown
-	mnames  map[[2]int]ckName  // model name -> real name
-	nfetch  int
-	cnt     map[string]int
-	sample  []string
-	scratch int
+	eng      string
+	base     string
+	seed     int64
+	keep     int
+	tw       *trace.Writer
+	rng      *rand.Rand
+	stores   map[int]*ckStore
+	terms    []uint64 // terms[k-1] = raft term of log entry k (one log for all stores)
+	curTerm  uint64
+	mreal    []int // model index j -> real index (a model entry is a burst of real entries)
+	nseg     int
+	rewind   bool // allow a fetch that can reuse local files after the source went back
+	inflight bool // apply entries between the release of the apply loop and the end of a backup
+	cnt      map[string]int
+	sample   []string
+	scratch  int
 }
 
 func (d *ckDrv) count(k string) { d.cnt[k]++ }
@@ -119,19 +110,16 @@ func (d *ckDrv) closeAll() {
 func (d *ckDrv) reset() error {
 	d.closeAll()
 	d.nseg++
-	d.gterm = 2
-	d.mgterm = 2
-	d.nextID = 1
-	d.origin = map[ckName]ckOrigin{}
-	d.epochs = map[ckOrigin][]int{}
-	d.mnames = map[[2]int]ckName{}
+	d.terms = nil
+	d.curTerm = 1
+	d.mreal = []int{0}
 	for id := 1; id <= 2; id++ {
 		dir := filepath.Join(d.base, fmt.Sprintf("seg%d-s%d", d.nseg, id))
 		kv, err := ckOpen(d.eng, dir, d.keep)
 		if err != nil {
 			return err
 		}
-		d.stores[id] = &ckStore{id: id, dir: dir, kv: kv, term: uint64(id), mterm: id}
+		d.stores[id] = &ckStore{id: id, dir: dir, kv: kv}
 	}
 	d.tw.Emit(trace.M{"ev": "reset", "eng": d.eng, "keep": d.keep})
 	return nil
@@ -220,7 +208,7 @@ func ckRaw(kv *node.KVStore) string {
 
 func (d *ckDrv) dump(s *ckStore) string {
 	txt := ckLogical(s.kv)
-	if len(d.sample) < 2 && len(s.log) >= 6 {
+	if len(d.sample) < 2 && s.applied >= 12 {
 		d.sample = append(d.sample, txt)
 	}
 	return digest(txt)
@@ -257,9 +245,9 @@ func (d *ckDrv) ls(s *ckStore) {
 // ------------------------------------------------------------------ writes
 
 // applyOp executes log entry `id` on the store.  The operation, its arguments and its log
-// timestamp are a function of (seed, id) only, so a replayed entry is the same entry.
+// timestamp are a function of (seed, segment, id) only, so a replayed entry is the same entry.
 func (d *ckDrv) applyOp(kv *node.KVStore, id int) (string, string) {
-	r := rand.New(rand.NewSource(ckMix(d.seed, int64(id))))
+	r := rand.New(rand.NewSource(ckMix(d.seed*1000+int64(d.nseg), int64(id))))
 	ts := ckBaseTs + int64(id)*1000000
 	key := []byte(ckKeys[r.Intn(len(ckKeys))])
 	arg := func(p string) []byte { return []byte(p + strconv.Itoa(r.Intn(6))) }
@@ -353,26 +341,43 @@ func (d *ckDrv) applyOp(kv *node.KVStore, id int) (string, string) {
 	return desc + " " + string(key), ckErrStr(err)
 }
 
-func (d *ckDrv) applyLoopRuns(s *ckStore) bool { return s.bi == nil || s.waited }
+// With -inflight=false the driver behaves like an apply loop that stays blocked until the
+// backup is done (only used where a failure must be attributable to something else than
+// entries applied in flight; the pebble defect behind it was fixed by ee3b302).
+func (d *ckDrv) applyLoopRuns(s *ckStore) bool {
+	if !d.inflight && s.bi != nil {
+		d.settle(s)
+	}
+	return s.bi == nil || s.waited
+}
 
-func (d *ckDrv) write(s *ckStore, id int) {
+// apply applies the next log entry to the store: the entry that is already in the log at
+// that index (replay after a restore, the second store catching up) or a new one.
+func (d *ckDrv) apply(s *ckStore) {
 	if !d.applyLoopRuns(s) {
 		return
 	}
-	desc, es := d.applyOp(s.kv, id)
-	s.log = append(s.log, id)
-	k := ckOrigin{s.id, s.epoch}
-	d.epochs[k] = append(d.epochs[k], id)
-	if id >= d.nextID {
-		d.nextID = id + 1
+	idx := s.applied + 1
+	if idx > len(d.terms) {
+		if d.rng.Intn(8) == 0 {
+			d.curTerm++ // leader change
+		}
+		d.terms = append(d.terms, d.curTerm)
+	} else {
+		d.count("replayed")
 	}
-	d.tw.Emit(trace.M{"ev": "write", "s": s.id, "id": id, "op": desc, "err": es, "dump": d.dump(s)})
-	d.count("writes")
+	desc, es := d.applyOp(s.kv, idx)
+	s.applied = idx
+	if s.bi != nil {
+		d.count("applies_inflight")
+	}
+	d.tw.Emit(trace.M{"ev": "apply", "s": s.id, "idx": idx, "t": d.terms[idx-1], "op": desc, "err": es, "dump": d.dump(s)})
+	d.count("applies")
 }
 
-func (d *ckDrv) writeFresh(s *ckStore, n int) {
+func (d *ckDrv) applyN(s *ckStore, n int) {
 	for k := 0; k < n; k++ {
-		d.write(s, d.nextID)
+		d.apply(s)
 	}
 }
 
@@ -388,10 +393,10 @@ func (d *ckDrv) compact(s *ckStore) {
 // ------------------------------------------------------------------ backup life cycle
 
 func (d *ckDrv) bbegin(s *ckStore) bool {
-	if s.bi != nil || len(s.log) == 0 {
+	if s.bi != nil || s.applied == 0 {
 		return false
 	}
-	name := ckName{s.term, uint64(len(s.log))}
+	name := ckName{d.terms[s.applied-1], uint64(s.applied)}
 	if os.Getenv("CK_DEBUG") != "" {
 		fmt.Fprintln(os.Stderr, "BEFORE BACKUP\n"+ckLogical(s.kv))
 	}
@@ -406,7 +411,6 @@ func (d *ckDrv) bbegin(s *ckStore) bool {
 		return false
 	}
 	s.bi, s.biName, s.waited = bi, name, false
-	d.origin[name] = ckOrigin{s.id, s.epoch}
 	d.count("backups")
 	return true
 }
@@ -426,6 +430,10 @@ func (d *ckDrv) bdone(s *ckStore) {
 	}
 	_, err := s.bi.GetResult()
 	s.bi = nil
+	// the backup goroutine purges old checkpoints right after it has closed `done`; let it
+	// get there, then pass behind it (IsLocalBackupOK takes the directory lock for reading)
+	time.Sleep(3 * time.Millisecond)
+	s.kv.IsLocalBackupOK(s.biName.t, s.biName.i)
 	d.tw.Emit(trace.M{"ev": "bdone", "s": s.id, "t": s.biName.t, "i": s.biName.i, "err": ckErrStr(err)})
 	d.ls(s)
 }
@@ -462,19 +470,19 @@ func (d *ckDrv) restore(s *ckStore, n ckName) bool {
 	if !d.has(s, n) {
 		return false
 	}
+	newest := d.listing(s)
 	err := s.kv.Restore(n.t, n.i)
+	if err != nil && !d.has(s, n) {
+		// purged between the listing and the call: nothing to judge
+		d.ls(s)
+		return false
+	}
 	if err == nil {
-		o := d.origin[n]
-		src := d.epochs[o]
-		if int(n.i) <= len(src) {
-			s.log = append([]int(nil), src[:n.i]...)
-		} else {
-			s.log = make([]int, n.i) // cannot happen; keeps the index right
-		}
-		d.gterm++
-		s.term = d.gterm
-		s.epoch++
-		d.epochs[ckOrigin{s.id, s.epoch}] = append([]int(nil), s.log...)
+		// every restore takes the engine's file numbering back to the checkpoint's manifest:
+		// files written from now on re-use numbers of files written after that checkpoint
+		_ = newest
+		s.rewound = true
+		s.applied = int(n.i)
 		s.lastRes = &ckName{n.t, n.i}
 	}
 	d.tw.Emit(trace.M{"ev": "restore", "s": s.id, "t": n.t, "i": n.i, "err": ckErrStr(err),
@@ -484,29 +492,17 @@ func (d *ckDrv) restore(s *ckStore, n ckName) bool {
 	return err == nil
 }
 
-// replay re-applies up to n of the entries that followed checkpoint `name` in the history it
-// was taken from (what a restarted node does with its raft log after restoring a snapshot).
-func (d *ckDrv) replay(s *ckStore, name ckName, n int) {
-	src := d.epochs[d.origin[name]]
-	for k := 0; k < n; k++ {
-		pos := len(s.log)
-		if pos >= len(src) || pos < int(name.i) {
-			return
-		}
-		// only while the store still follows that history
-		same := true
-		for j := 0; j < pos; j++ {
-			if s.log[j] != src[j] {
-				same = false
-				break
-			}
-		}
-		if !same {
-			return
-		}
-		d.write(s, src[pos])
-		d.count("replayed")
+// dirStamp: names, sizes and modification times of the files of a directory.
+func dirStamp(dir string) string {
+	ents, err := ioutil.ReadDir(dir)
+	if err != nil {
+		return "ERR"
 	}
+	var b strings.Builder
+	for _, e := range ents {
+		fmt.Fprintf(&b, "%s:%d:%d;", e.Name(), e.Size(), e.ModTime().UnixNano())
+	}
+	return b.String()
 }
 
 func copyTree(src, dst string) error {
@@ -548,7 +544,11 @@ func (d *ckDrv) ckdump(s *ckStore, n ckName) {
 	dataDir, _ := engine.GetDataDirFromBase(d.eng, tmp)
 	src := filepath.Join(s.kv.GetBackupDir(), rockredis.GetCheckpointDir(n.t, n.i))
 	dump, raw := "", ""
+	before := dirStamp(src)
 	err := copyTree(src, dataDir)
+	if !d.has(s, n) || dirStamp(src) != before {
+		return // being purged while it was read: nothing to judge
+	}
 	if err == nil {
 		os.Remove(filepath.Join(dataDir, "source_node_info"))
 		var kv *node.KVStore
@@ -570,6 +570,49 @@ func (d *ckDrv) ckdumpAll(s *ckStore) {
 	}
 }
 
+// interruptedTransfer leaves in `to`'s backup directory what a first transfer attempt that
+// was killed in the middle of a file leaves behind: the files copied so far and one file
+// that is only half there (its modification time is the time of the interruption).  The
+// attempt itself is no step of the specification; the fetch that follows is the retry.
+func (d *ckDrv) interruptedTransfer(from, to *ckStore, n ckName) {
+	name := rockredis.GetCheckpointDir(n.t, n.i)
+	src := filepath.Join(from.kv.GetBackupDir(), name)
+	dst := filepath.Join(to.kv.GetBackupDir(), name)
+	if _, err := os.Stat(dst); err == nil {
+		return // a complete copy is there already
+	}
+	ents, err := ioutil.ReadDir(src)
+	if err != nil {
+		return
+	}
+	os.MkdirAll(dst, 0755)
+	// the file the transfer was interrupted in: a data-bearing one
+	victim := ""
+	for _, pref := range []string{".log", "mem.dat", ".sst", "MANIFEST"} {
+		for _, e := range ents {
+			if victim == "" && e.Size() > 1 && (strings.HasSuffix(e.Name(), pref) || strings.HasPrefix(e.Name(), pref)) {
+				victim = e.Name()
+			}
+		}
+	}
+	for _, e := range ents {
+		if e.IsDir() {
+			continue
+		}
+		b, err := ioutil.ReadFile(filepath.Join(src, e.Name()))
+		if err != nil {
+			continue
+		}
+		if e.Name() == victim {
+			ioutil.WriteFile(filepath.Join(dst, e.Name()), b[:len(b)/2], 0644)
+			break // nothing after the interruption
+		}
+		ioutil.WriteFile(filepath.Join(dst, e.Name()), b, 0644)
+		os.Chtimes(filepath.Join(dst, e.Name()), e.ModTime(), e.ModTime()) // cp -p
+	}
+	d.count("interrupted_transfers")
+}
+
 func (d *ckDrv) fetch(from, to *ckStore, n ckName) bool {
 	d.settle(from)
 	d.settle(to)
@@ -577,9 +620,23 @@ func (d *ckDrv) fetch(from, to *ckStore, n ckName) bool {
 	if !d.has(from, n) {
 		return false
 	}
+	if from.rewound && to.fetched > 0 && !d.rewind {
+		// known finding ckpt-local-fetch-overwrites-hardlink: kept out of the general corpus
+		d.count("fetch_avoided")
+		return false
+	}
+	if d.rng.Intn(3) == 0 {
+		d.interruptedTransfer(from, to, n)
+	}
 	reused, err := node.VerifCkptFetchLocal(to.kv, from.dir, n.t, n.i, make(chan struct{}))
+	if !d.has(from, n) {
+		// purged under the copy: drop what was copied, nothing to judge
+		os.RemoveAll(filepath.Join(to.kv.GetBackupDir(), rockredis.GetCheckpointDir(n.t, n.i)))
+		return false
+	}
+	to.fetched++
 	d.tw.Emit(trace.M{"ev": "fetch", "from": from.id, "to": to.id, "t": n.t, "i": n.i, "err": ckErrStr(err),
-		"reused": reused != ""})
+		"reused": reused != "", "rewound": from.rewound})
 	d.ls(to)
 	d.count("fetches")
 	if reused != "" {
@@ -599,23 +656,67 @@ func (d *ckDrv) randName(s *ckStore) (ckName, bool) {
 	return ckName{x[0], x[1]}, true
 }
 
+// rewindScenario produces the trigger of known finding ckpt-local-fetch-overwrites-hardlink on
+// purpose: the second store fetches two checkpoints, the source goes back to the older one,
+// writes sst files again (re-using file numbers) and is fetched from once more.
+func (d *ckDrv) rewindScenario() {
+	s1, s2 := d.stores[1], d.stores[2]
+	backup := func() (ckName, bool) {
+		if !d.bbegin(s1) {
+			return ckName{}, false
+		}
+		n := s1.biName
+		d.settle(s1)
+		return n, true
+	}
+	d.applyN(s1, 4+d.rng.Intn(4))
+	d.compact(s1)
+	a, ok1 := backup()
+	d.applyN(s1, 3+d.rng.Intn(4))
+	d.compact(s1)
+	b, ok2 := backup()
+	if !ok1 || !ok2 {
+		return
+	}
+	d.fetch(s1, s2, a)
+	d.fetch(s1, s2, b)
+	d.restore(s2, b)
+	if !d.restore(s1, a) {
+		return
+	}
+	d.applyN(s1, 1+d.rng.Intn(3))
+	d.compact(s1)
+	d.applyN(s1, 2+d.rng.Intn(3))
+	d.compact(s1)
+	c, ok := backup()
+	if !ok {
+		return
+	}
+	d.fetch(s1, s2, c)
+	d.ckdumpAll(s2)
+	d.restore(s2, b)
+}
+
 func (d *ckDrv) randomHistory(steps int) {
 	s1, s2 := d.stores[1], d.stores[2]
-	d.writeFresh(s1, 3+d.rng.Intn(6))
+	if d.rewind && d.eng != "mem" {
+		d.rewindScenario()
+	}
+	d.applyN(s1, 3+d.rng.Intn(6))
 	for k := 0; k < steps; k++ {
 		s := s1
-		if d.rng.Intn(5) == 0 && len(s2.log) > 0 {
+		if d.rng.Intn(5) == 0 {
 			s = s2
 		}
 		switch c := d.rng.Intn(100); {
 		case c < 34:
-			d.writeFresh(s, 1+d.rng.Intn(5))
+			d.applyN(s, 1+d.rng.Intn(5))
 		case c < 50:
 			if s.bi == nil {
 				if d.bbegin(s) {
 					d.bnotify(s)
 					// the apply loop continues at once, while the checkpoint is still being written
-					d.writeFresh(s, 1+d.rng.Intn(4))
+					d.applyN(s, 1+d.rng.Intn(4))
 				}
 			} else {
 				d.settle(s)
@@ -636,23 +737,14 @@ func (d *ckDrv) randomHistory(steps int) {
 				if d.rng.Intn(3) == 0 && s.lastRes != nil {
 					n = *s.lastRes // restore the same checkpoint again
 				}
-				if d.restore(s, n) {
-					switch d.rng.Intn(3) {
-					case 0:
-						d.replay(s, n, 1+d.rng.Intn(6))
-					case 1:
-						d.writeFresh(s, 1+d.rng.Intn(4))
-					}
+				if d.restore(s, n) && d.rng.Intn(3) > 0 {
+					d.applyN(s, 1+d.rng.Intn(6)) // replay, possibly beyond the old end of the log
 				}
 			}
 		case c < 80:
 			if n, ok := d.randName(s1); ok {
 				if d.fetch(s1, s2, n) && d.restore(s2, n) {
-					if d.rng.Intn(2) == 0 {
-						d.replay(s2, n, 1+d.rng.Intn(5))
-					} else {
-						d.writeFresh(s2, 1+d.rng.Intn(3))
-					}
+					d.applyN(s2, d.rng.Intn(5))
 				}
 			}
 		case c < 88:
@@ -665,33 +757,13 @@ func (d *ckDrv) randomHistory(steps int) {
 	d.ckdumpAll(s2)
 }
 
-var reSimLabel = regexp.MustCompile(`^\\\* <([A-Za-z]+)(\(([^)]*)\))? line`)
-
-// loadSim reads one behaviour file written by `tlc -simulate file=...` and returns its
-// action labels (names and integer arguments only).
-func loadSim(path string) ([]graph.Edge, error) {
-	fh, err := os.Open(path)
-	if err != nil {
-		return nil, err
+// realName maps a model checkpoint name (t, i) to the real one: model entry i is the burst
+// of real entries that ends at mreal[i], all of term t.
+func (d *ckDrv) realName(t, i int) (ckName, bool) {
+	if i <= 0 || i >= len(d.mreal) {
+		return ckName{}, false
 	}
-	defer fh.Close()
-	var out []graph.Edge
-	sc := bufio.NewScanner(fh)
-	sc.Buffer(make([]byte, 1<<20), 1<<24)
-	for sc.Scan() {
-		m := reSimLabel.FindStringSubmatch(sc.Text())
-		if m == nil || m[1] == "Init" {
-			continue
-		}
-		e := graph.Edge{Label: m[1] + m[2], Name: strings.TrimPrefix(m[1], "M")}
-		if m[3] != "" {
-			for _, a := range strings.Split(m[3], ",") {
-				e.Args = append(e.Args, strings.TrimSpace(a))
-			}
-		}
-		out = append(out, e)
-	}
-	return out, sc.Err()
+	return ckName{uint64(t), uint64(d.mreal[i])}, true
 }
 
 func (d *ckDrv) simHistory(steps []graph.Edge) {
@@ -701,16 +773,33 @@ func (d *ckDrv) simHistory(steps []graph.Edge) {
 			s = d.stores[ckAtoi(e.Args[0])]
 		}
 		switch e.Name {
-		case "Write":
-			s.midx++
-			d.writeFresh(s, 1+d.rng.Intn(5))
+		case "Apply":
+			if !d.applyLoopRuns(s) {
+				continue
+			}
+			m := s.midx
+			if m+1 >= len(d.mreal) {
+				d.mreal = append(d.mreal, d.mreal[m]+1+d.rng.Intn(5))
+				if t := uint64(ckAtoi(e.Args[1])); t > d.curTerm {
+					d.curTerm = t // terms never go down in a log
+				}
+			}
+			for s.applied < d.mreal[m+1] {
+				before := s.applied
+				if s.applied+1 > len(d.terms) {
+					d.terms = append(d.terms, d.curTerm)
+				}
+				d.apply(s)
+				if s.applied == before {
+					break
+				}
+			}
+			s.midx = m + 1
 			if d.rng.Intn(6) == 0 {
 				d.compact(s)
 			}
 		case "BackupBegin":
-			if d.bbegin(s) {
-				d.mnames[[2]int{s.mterm, s.midx}] = s.biName
-			}
+			d.bbegin(s)
 		case "BackupCut":
 			// inside the engine; nothing to call
 		case "BackupNotify":
@@ -719,27 +808,20 @@ func (d *ckDrv) simHistory(steps []graph.Edge) {
 			d.bnotify(s)
 			d.bdone(s)
 		case "RecordSnap":
-			if n, ok := d.mnames[[2]int{ckAtoi(e.Args[1]), ckAtoi(e.Args[2])}]; ok {
+			if n, ok := d.realName(ckAtoi(e.Args[1]), ckAtoi(e.Args[2])); ok {
 				d.snap(s, n)
 			}
 		case "Restore":
-			if n, ok := d.mnames[[2]int{ckAtoi(e.Args[1]), ckAtoi(e.Args[2])}]; ok {
+			if n, ok := d.realName(ckAtoi(e.Args[1]), ckAtoi(e.Args[2])); ok {
 				d.ckdumpAll(s)
 				if d.restore(s, n) {
-					d.mgterm++
-					s.mterm = d.mgterm
 					s.midx = ckAtoi(e.Args[2])
-					if d.rng.Intn(2) == 0 {
-						d.replay(s, n, 1+d.rng.Intn(4))
-						// replayed entries are beyond the model's index only until the next
-						// model Write; keep the model index in step with the checkpoint
-					}
 					d.ckdumpAll(s)
 				}
 			}
 		case "Fetch":
 			from, to := d.stores[ckAtoi(e.Args[0])], d.stores[ckAtoi(e.Args[1])]
-			if n, ok := d.mnames[[2]int{ckAtoi(e.Args[2]), ckAtoi(e.Args[3])}]; ok {
+			if n, ok := d.realName(ckAtoi(e.Args[2]), ckAtoi(e.Args[3])); ok {
 				d.fetch(from, to, n)
 			}
 		case "Purge", "Next":
@@ -763,6 +845,8 @@ func ckptsim(args []string) error {
 	parts := fs.Int("parts", 1, "number of trace files (segments are dealt round-robin)")
 	seed := fs.Int64("seed", 1, "")
 	keep := fs.Int("keep", 2, "KeepBackup of the stores (checkpoints kept by the purge)")
+	inflight := fs.Bool("inflight", true, "keep applying entries as soon as WaitReady has returned, while the checkpoint is still being written (false: only after the backup is done)")
+	rewind := fs.Bool("rewindfetch", false, "also fetch (with reuse of local files) after the source store went back to an older checkpoint (trigger of known finding ckpt-local-fetch-overwrites-hardlink)")
 	fs.Parse(args)
 
 	log.SetOutput(ioutil.Discard) // common.RunFileSync prints through the standard logger
@@ -789,7 +873,7 @@ func ckptsim(args []string) error {
 		}
 	}
 	d := &ckDrv{eng: *et, base: base, seed: *seed, keep: *keep, rng: rand.New(rand.NewSource(*seed)),
-		stores: map[int]*ckStore{}, cnt: map[string]int{}}
+		stores: map[int]*ckStore{}, cnt: map[string]int{}, rewind: *rewind, inflight: *inflight}
 	seg := 0
 	var runErr error
 	segment := func(f func()) {
@@ -814,7 +898,7 @@ func ckptsim(args []string) error {
 		files, _ := filepath.Glob(*sim + "_*")
 		sort.Strings(files)
 		for _, f := range files {
-			steps, err := loadSim(f)
+			steps, err := loadSimLabels(f)
 			if err != nil {
 				return err
 			}
